@@ -30,6 +30,7 @@ def art_sig(data):
     """Decode an artifact completely; returns the set of (member name, type, sha of content)
     or raises."""
     sig = []
+    gzip.decompress(data)       # the whole gzip stream including its trailer (CRC, length) must be there
     with tarfile.open(fileobj=io.BytesIO(data), mode='r:gz') as tar:
         if tar.pax_headers.get('bob-archive-vsn') != '1': raise ValueError('no pax version')
         for m in tar:
@@ -254,6 +255,67 @@ def run_scenario(job):
     return job, stats
 
 
+def size_job(job):
+    """Mirror copies for a window of artifact sizes (no concurrency): upload a tree with an incompressible payload of
+    every given length to the source archive, download it with the target archive as cache mirror, and decode what
+    appears under the artifact name of the mirror completely."""
+    payloads, = job
+    import bob.archive as ba, random
+    assert not _installed
+    root = os.path.join(runner.scratch(), 'c09s-%d' % os.getpid())
+    out = []
+    for n in payloads:
+        shutil.rmtree(root, ignore_errors=True)
+        src = os.path.join(root, 'src'); os.makedirs(os.path.join(src, 'content'))
+        with open(os.path.join(src, 'content', 'blob.bin'), 'wb') as f: f.write(random.Random(n).randbytes(n))
+        with gzip.open(os.path.join(src, 'audit.json.gz'), 'wb') as f: f.write(b'{"audit-of": "size-%d"}' % n)
+        S, T, ws = os.path.join(root, 'S'), os.path.join(root, 'T'), os.path.join(root, 'ws')
+        for d in (S, T, ws): os.makedirs(d)
+        sa = ba.LocalArchive({'backend': 'file', 'path': S}); ta = ba.LocalArchive({'backend': 'file', 'path': T, 'flags': ['cache']})
+        r = sa._uploadPackage(BID, ba.ARTIFACT_SUFFIX, os.path.join(src, 'audit.json.gz'), os.path.join(src, 'content'))
+        assert r[0] == 'ok', r
+        r = sa._downloadPackage(BID, ba.ARTIFACT_SUFFIX, os.path.join(ws, 'audit.json.gz'), os.path.join(ws, 'content'), [ta], ws)
+        sdata = open(sa._remoteName(BID, ba.ARTIFACT_SUFFIX), 'rb').read()
+        tname = ta._remoteName(BID, ba.ARTIFACT_SUFFIX)
+        prob = None
+        if not (isinstance(r, tuple) and r[0]):
+            prob = ('mirror-download-fails', 'download of a %d byte artifact with a cache mirror returned %r' % (len(sdata), r))
+        elif not os.path.exists(tname):
+            prob = ('mirror-publishes-nothing', 'successful mirroring download left nothing under the artifact name of the cache')
+        else:
+            tdata = open(tname, 'rb').read()
+            try:
+                if art_sig(tdata) != art_sig(sdata): prob = ('mirror-publishes-foreign-content', 'mirror copy decodes to another tree')
+            except Exception as e:
+                prob = ('reader-sees-incomplete-artifact:mirror-copy', 'source artifact has %d bytes, the copy published in the cache %d bytes and does not decode: %s: %s' % (
+                    len(sdata), len(tdata), type(e).__name__, str(e)[:80]))
+        out.append((n, len(sdata), prob))
+    shutil.rmtree(root, ignore_errors=True)
+    return out
+
+
+def size_windows(quick):
+    """payload lengths whose artifacts straddle the read-ahead boundaries of the tar stream reader (512 + k*10240 bytes),
+    calibrated with one real pack; thorough: one full period of it as well"""
+    import random, tempfile
+    from bob.archive import TarHelper
+    d = tempfile.mkdtemp(dir=runner.scratch())
+    os.makedirs(os.path.join(d, 'content'))
+    with open(os.path.join(d, 'content', 'blob.bin'), 'wb') as f: f.write(random.Random(1).randbytes(10000))
+    with gzip.open(os.path.join(d, 'audit.json.gz'), 'wb') as f: f.write(b'{"audit-of": "size-10000"}')
+    buf = io.BytesIO(); TarHelper()._pack(None, buf, os.path.join(d, 'audit.json.gz'), os.path.join(d, 'content'))
+    over = len(buf.getvalue()) - 10000          # artifact bytes - payload bytes for incompressible payloads
+    shutil.rmtree(d, ignore_errors=True)
+    wins = []
+    for k in (1, 2) if quick else (1, 2, 3, 7):
+        start = 512 + k * 10240 - over - 40
+        wins += [list(range(a, a + 32)) for a in range(start, start + 128, 32)]
+    wins += [list(range(a, a + 40)) for a in (1, 400, 5000)]
+    if not quick:
+        wins += [list(range(a, a + 64)) for a in range(11000, 11000 + 10240, 64)]
+    return wins
+
+
 SCENARIOS_Q = [('A', 'B'), ('A', 'B', 'mode'), ('A', 'D'), ('A', 'M'), ('A', 'B', 'D'), ('A', 'M', 'D'), ('U', 'V'), ('U', 'V', 'R'), ('A', 'B', 'M')]
 SCENARIOS_T = SCENARIOS_Q + [('A', 'B', 'C'), ('A', 'B', 'M', 'D'), ('M', 'D'), ('A', 'M', 'mode')]
 
@@ -261,6 +323,15 @@ SCENARIOS_T = SCENARIOS_Q + [('A', 'B', 'C'), ('A', 'B', 'M', 'D'), ('M', 'D'), 
 def run(ctx):
     quick = ctx.tier == 'quick'
     pb2 = int(ctx.opts.get('pb', 2))
+    # phase 0: mirror copies over a window of artifact sizes (sequential; must run before the proxies are installed here)
+    nsizes = 0
+    residues = set()
+    for res in runner.pmap(size_job, [(w,) for w in size_windows(quick)]):
+        for n, ssize, prob in res:
+            nsizes += 1; residues.add((ssize - 512) % 10240)
+            if prob: ctx.violation(prob[0], 'payload %d bytes: %s' % (n, prob[1]), dict(part='size', payload=n))
+    ctx.log('mirror copies for %d payload lengths; %d distinct residues of (artifact size - 512) mod 10240, %d of them within 0..63' % (
+        nsizes, len(residues), len([r for r in residues if r < 64])))
     jobs = []
     scen = SCENARIOS_Q if quick else SCENARIOS_T
     # phase 1: schedules
@@ -311,6 +382,7 @@ def run(ctx):
         bounds=dict(scenarios=['+'.join(s) for s in scen], preemption_bound_2actors=(pb2 if quick else 'unbounded'),
                     preemption_bound_3plus=(1 if quick else pb2),
                     faults='kill and ENOSPC at every intercepted call of every actor (default schedule%s), ENOSPC at every write of A/M/U' % ('' if quick else ' and every schedule with <=1 preemption')),
+        mirror_sizes=dict(payload_lengths=nsizes, distinct_size_residues=len(residues)),
         executions=execs, fault_executions=nfault, distinct_outcomes=len(outcomes)),
         assumptions=['one thread per process; scheduling points are the calls into os, os.path, NamedTemporaryFile, open and file close made by bob.archive; '
                      'code between two points is private to the actor (buffered writes reach the kernel when the real buffer flushes)',
@@ -319,6 +391,8 @@ def run(ctx):
 
 def replay(ctx, body):
     r = body['replay']
+    if r.get('part') == 'size':
+        print(size_job(([r['payload']],))); return 0
     install()
     root = os.path.join(runner.scratch(), 'c09')
     w = World(tuple(r['scenario']), root)
